@@ -8,9 +8,11 @@ ID = 'C13'
 LEAN_TARGETS = ['Props.C13']
 TIE_A = ['g3c_rotor_between_planes_eq']
 OBLIGATIONS = ['C13.intertwining', 'C13.rotor_carries', 'C13.translation_fixes_einf', 'C13.rotor_between_objects_positive_root',
-               'C13.rotor_between_objects_scalar_sigma', 'C13.positive_root_squares', 'C13.square_root_of_rotor']
+               'C13.rotor_between_objects_scalar_sigma', 'C13.positive_root_squares', 'C13.square_root_of_rotor',
+               'C13.sigma_is_scalar_plus_pseudovector', 'C13.reverse_of_C', 'C13.rotor_between_objects_g3c']
 PARTIAL = ['the polar-decomposition normalisation is proved with the square roots as parameters constrained by their defining equations (positive-root branch, scalar sigma, '
-           'positive_root squared, square root of a rotor); that sigma = C~C has the form s + q with q*q scalar for the objects of g3c, the floating-point choice between the '
+           'positive_root squared, square root of a rotor); that sigma = C~C is scalar + 4-vector with a scalar square IS proved for every pair of same-grade blades of the '
+           '5-dimensional algebra (sigma_is_scalar_plus_pseudovector, rotor_between_objects_g3c). The floating-point choice between the '
            'branches, motor_between_rounds, logarithm/exponential pairs and interpolation have no Lean theorem: decided by evaluation on the implementation']
 RULE = ("pairs of normalised point pairs, lines, circles, planes and spheres built from integer points (coordinates in [-4, 4]) in general position and in the special "
         "positions equal, translated, rotated, dilated, parallel, concentric, intersecting, disjoint, nested (antipodal X2 = -X1 excluded); TR / TRS rotors with translation "
